@@ -8,19 +8,51 @@
 // message type as first message and short message orders ending in a valid or invalid
 // introduction. Verdicts are logical: a PONG proves that everything sent before was processed,
 // the connection listing of the HTTP API shows the state, a closed connection is observed as EOF.
+// After its graceful stop, the peer list a node saved may only name peers of valid introductions.
+//
+// Rude peers (rudeleg.go, rudenode.go): the peer whose introduction is rejected closes, half-closes
+// or resets its socket or stops reading, with further messages behind the introduction, while a
+// well-behaved peer keeps the node busy; the node's own disconnect call then fails or races. Such
+// a peer may never count as introduced: connection registry (polled inside the node), connection
+// listing of the API, replies on the connection, saved peer list.
 package main
 
 import (
+	"os"
+	"strings"
+	"sync"
+
 	"verif/lib/vf"
 )
 
 func main() {
+	if os.Getenv(rudeNodeEnv) != "" && len(os.Args) == 2 && strings.HasSuffix(os.Args[1], "options.json") {
+		rudeNodeMain()
+		return
+	}
 	r := vf.Start("C25", "exploration")
-	runFuncLeg(r)
-	runNodeLeg(r)
-	r.Finish("function level: seeded introduction bodies (mirror equal/adjacent/different, protocol version around the minimum and at the int32 limits, extra absent / explicit zero length / 1..32 bytes / structured with right or wrong pubkey, each verification parameter at and beyond its range, user agents valid / 256 bytes / too long / malformed / illegal characters / wrong length prefixes / missing, genesis hash absent / full / wrong / partial / followed by more bytes, random extras, wrong outer length prefix) through the real decoder and IntroductionMessage.Verify vs a byte-level model; node level: vnode children, per fresh connection one of the 12 message types as first message or GIVP* [other message] GIVP* INTR(valid | one invalid class); distinct = distinct (label set, model reason) classes at function level and distinct (sequence shape, outcome) classes at node level",
+	legs := os.Getenv("C25_LEGS") // dev aid: "func", "node", "rude" (floors of the legs left out then fail)
+	want := func(l string) bool { return legs == "" || strings.Contains(legs, l) }
+	if want("func") {
+		runFuncLeg(r)
+	}
+	var wg sync.WaitGroup
+	if want("rude") {
+		wg.Add(1)
+		go func() {
+			defer wg.Done()
+			runRudeLeg(r)
+		}()
+	}
+	if want("node") {
+		runNodeLeg(r)
+	}
+	wg.Wait()
+	r.Finish("function level: seeded introduction bodies (mirror equal/adjacent/different, protocol version around the minimum and at the int32 limits, extra absent / explicit zero length / 1..32 bytes / structured with right or wrong pubkey, each verification parameter at and beyond its range, user agents valid / 256 bytes / too long / malformed / illegal characters / wrong length prefixes / missing, genesis hash absent / full / wrong / partial / followed by more bytes, random extras, wrong outer length prefix) through the real decoder and IntroductionMessage.Verify vs a byte-level model; node level: vnode children, per fresh connection one of the 12 message types as first message or GIVP* [other message] GIVP* INTR(valid | one invalid class), and the peer list saved at the node's graceful stop; rude peers: own node children with a registry reader inside, per fresh connection GIVP{0..2} INTR(each invalid class) + 0..3 of GETB/GETP/GIVP/ANNT/ANNB/GETT/PING in one write, then close / half-close / reset (at once, after 200 us, after 1 ms) or no more reading, while an introduced peer sends bursts of 0/10/20/30 ANNT before, after or around that write (the node's own disconnect call then fails for part of the cases: counted), model verdict 'never introduced' vs connection registry, API listing, replies and saved peer list; distinct = distinct (label set, model reason) classes at function level, distinct (sequence shape, outcome) classes at node level, distinct (peer behaviour, model reason, follow-up messages) classes for rude peers",
 		"a user agent containing illegal characters whose stripped form is valid, bytes after the genesis hash, and semver numbers above 64 bits are not decided by the documents: behaviour is recorded (func.either.*), not judged",
 		"node level uses introductions with listen port >= 1024 and a mirror unique among live connections, so that the peer-list and duplicate-connection rules (outside this property) do not interfere",
 		"'caused a disconnect' is observed as EOF on the peer socket; if no EOF arrives within the watchdog a PING probe is sent: a PONG with no DISC message queued before it proves logically (one FIFO event loop, one FIFO write queue per connection) that all messages were processed and no disconnect was initiated; anything else after a missed watchdog is inconclusive",
-		"node-level bursts stay below 1024 bytes so that they are not cut by the receiver's read buffer (message loss at read-buffer cuts belongs to C22)")
+		"node-level bursts stay below 1024 bytes so that they are not cut by the receiver's read buffer (message loss at read-buffer cuts belongs to C22)",
+		"a disconnect is asynchronous: a valid introduction queued behind a message that already caused a disconnect is still handled, so the saved peer list may name the listen address of every model-valid introduction sent (and advertised peers), never that of a rejected one; rude peers announce listen ports 62100+ that nothing valid uses",
+		"rude peers: no second introduction follows the rejected one; the well-behaved peer's bursts stay at 30+1 messages (gnet drops a connection with more than 32 undelivered messages: C22); pauses and burst placement only shape the workload, every verdict is a set comparison after logical barriers (PONG of the well-behaved peer, connection no longer listed, graceful stop)")
 }
